@@ -232,20 +232,21 @@ impl KnownFindings {
             if let Some(rest) = line.strip_prefix("fixed:") {
                 k.fixed.push(rest.trim().to_string());
             } else if let Some(rest) = line.strip_prefix("open:") {
-                let mut prop = String::new();
-                let mut sig = String::new();
-                let mut desc = Vec::new();
-                for w in rest.split_whitespace() {
-                    if let Some(p) = w.strip_prefix("property=") {
-                        prop = p.to_string();
-                    } else if let Some(s) = w.strip_prefix("signature=") {
-                        sig = s.to_string();
-                    } else {
-                        desc.push(w);
-                    }
-                }
+                // open: property=<id> signature="<text that occurs in the failure message>" <what fails>
+                let rest = rest.trim();
+                let prop = rest.split_whitespace().find_map(|w| w.strip_prefix("property=")).unwrap_or("").to_string();
+                let (sig, desc) = match rest.find("signature=\"") {
+                    Some(i) => {
+                        let after = &rest[i + 11..];
+                        match after.find('"') {
+                            Some(j) => (after[..j].to_string(), after[j + 1..].trim().to_string()),
+                            None => (String::new(), String::new()),
+                        }
+                    },
+                    None => (String::new(), String::new()),
+                };
                 if !prop.is_empty() && !sig.is_empty() {
-                    k.open.push((prop, sig, desc.join(" ")));
+                    k.open.push((prop, sig, desc));
                 }
             }
         }
@@ -513,13 +514,27 @@ where
 
 fn run_oracle<C>(oracle: Oracle<C>, case: &C, st: &mut Stats) -> Result<(), String> {
     // The oracle guards library calls itself; a panic that escapes is reported as such.
-    match panic::catch_unwind(AssertUnwindSafe(|| oracle(case, st))) {
+    let r = match panic::catch_unwind(AssertUnwindSafe(|| oracle(case, st))) {
         Ok(r) => r,
         Err(_) => Err(format!(
             "panic escaped the oracle: {}",
             LAST_PANIC.with(|p| p.borrow_mut().take()).unwrap_or_default()
         )),
+    };
+    // An *open* known finding (known_findings.txt, `open:` line) is identified by a signature
+    // that must occur in the failure message (the specific input, call site or history). Such a
+    // case is excluded - counted, not reported - so that the search continues behind it; any
+    // other violation of the same property is still reported.
+    if let Err(m) = &r {
+        let hit = st.open.iter().find(|sig| m.contains(sig.as_str())).cloned();
+        if let Some(sig) = hit {
+            if st.counting {
+                *st.excluded.entry(sig).or_insert(0) += 1;
+            }
+            return Ok(());
+        }
     }
+    r
 }
 
 fn merge<'a>(name: &str, kind: &'static str, stats: impl Iterator<Item = &'a Stats>) -> SectionReport {
